@@ -29,6 +29,7 @@ class State:
         self.distinct = set()
         self.hist = {}       # model id -> dict(len, faults bitmask, interventions)
         self.dropped_ids = set()
+        self.errstate = None
 
 
 def is_ref(x):
@@ -795,7 +796,19 @@ def h_m_edit(w, st, rec):
     return "ok:-", None
 
 
-HANDLERS = {"m.edit": h_m_edit, "m.drop": h_m_drop, "buf.new": h_buf_new, "m.new": h_m_new, "m.call": h_m_call, "u.call": h_u_call,
+def h_np_seterr(w, st, rec):
+    """The caller runs its program under a non-default numpy floating-point error state (process-global, like
+    the global generator).  Library calls are executed under it and must leave it as they found it."""
+    old = np.seterr(**rec["state"])
+    full = dict(np.geterr())              # the four settings spelled out
+    np.seterr(**old)
+    w.caller_err = full
+    st.errstate = dict(rec["state"])
+    w.probes["caller.non_default_errstate"] += 1
+    return "ok:-", None
+
+
+HANDLERS = {"np.seterr": h_np_seterr, "m.edit": h_m_edit, "m.drop": h_m_drop, "buf.new": h_buf_new, "m.new": h_m_new, "m.call": h_m_call, "u.call": h_u_call,
             "fault.scribble": h_scribble, "m.new.private": h_m_new_private}
 
 
@@ -941,6 +954,11 @@ def execute(sempler, run_seed, ops, pristine_budget=4):
             continue
         w.record(rec, od)
         failed = out is not None and out[0] == "exc"
+        if w.err_changed:
+            w.violate("result_depends_on_history", site,
+                      {"how": "the call left numpy's floating-point error state (np.seterr) of the caller changed; "
+                              "what later operations return or raise now depends on this call", "changed": w.err_changed[0]})
+            w.err_changed = []
         check_models(w, st, site, failed=failed, after_scribble=(op == "fault.scribble"))
         check_results(w, st, site)
         if op in ("m.call", "m.new") and rec.get("m", rec.get("id")) in st.models:
@@ -957,7 +975,11 @@ def execute(sempler, run_seed, ops, pristine_budget=4):
     keys = sorted(st.oblig, key=lambda k: st.oblig[k]["step"])
     if pristine_budget is not None and len(keys) > pristine_budget:
         keys = w.streams["pristine"].sample(keys, pristine_budget)
-    return w, [st.oblig[k] for k in keys]
+    obl = [st.oblig[k] for k in keys]
+    if st.errstate:
+        # the reference world runs under the same error state of the caller
+        obl = [dict(o, ops=[{"op": "np.seterr", "state": st.errstate}] + o["ops"]) for o in obl]
+    return w, obl
 
 
 def pristine_eval(sempler, ops):
@@ -1317,6 +1339,9 @@ def generate(run_seed, deep=False):
         cfg["max_models"] = st["deep"].randint(3, 8)
     gs = GS()
     ops = []
+    if g.random() < 0.12:
+        ops.append({"c": 0, "op": "np.seterr", "state": g.choice([{"invalid": "raise", "over": "raise"}, {"all": "ignore"},
+                                                                {"divide": "raise", "invalid": "ignore"}])})
     nclients = cfg["clients"]
     # every world starts with one model
     gen_model(g, gs, cfg, ops, sc.randrange(nclients))
@@ -1624,7 +1649,7 @@ REQUIRED_PROBES = ["iv.do.non_source", "iv.shift.non_source", "iv.noise.non_sour
                    "history.aged_vs_twin", "sweep.fault_positions", "sweep.utils", "obs_law.checked", "obs_law.checked:anm", "obs_law.checked:nd", "buf.view", "gc.model_dropped",
                    "gc.model_id_reused", "two_models_from_one_caller_array", "model_from_generator_output", "buf.lower_rank",
                    "buf.readonly_view", "buf.column_vector", "call.by_keyword", "scribble.in:bound_method_owner", "scribble.in:model_object_held_by_a_callable",
-                   "scribble.in:partial_bound_array", "buf.pandas", "burst.calls_on_one_model", "model.used_through_a_copy", "caller.edits_model_attribute",
+                   "scribble.in:partial_bound_array", "buf.pandas", "burst.calls_on_one_model", "model.used_through_a_copy", "caller.edits_model_attribute", "caller.non_default_errstate",
                    "call.same_object_for_two_parameters",
                    "utils.unseeded_call",
                    "nd.check_valid"]
